@@ -221,6 +221,16 @@ func init() {
 			}
 			mergeFaultCov(cov, tcov, "task_pass")
 			viols = append(viols, tviols...)
+			// relayed (unconfirmed) transactions as fault targets: a relay whose processing failed is
+			// announced again once storage works, and must then be tracked like any other
+			ropts := map[string]interface{}{"relay": true, "templates": []string{"e", "pa"}, "relay_templates": []string{"in", "sp", "dup"}, "pending_blocks": []string{"cp"}, "patterns": []string{"E"},
+				"max_reorg": 1, "max_queue": 1, "max_height": 4, "max_relay": 2, "no_b": true}
+			rcov, rviols, err := faultEnum(c, "fail", ropts, map[bool]int{false: 4, true: 5}[c.Tier == "thorough"], 0, reps, budget)
+			if err != nil {
+				return nil, nil, nil, err
+			}
+			mergeFaultCov(cov, rcov, "relay_pass")
+			viols = append(viols, rviols...)
 			// third pass: the fault is injected BELOW the ldb backend (a journal write of LevelDB
 			// fails), so that the backend's own error paths run
 			bcov, bviols, err := backendFaultPass(c)
